@@ -12,7 +12,9 @@ use crate::daemon::spawn::resolve_single_ntp_server;
 
 use super::super::config::NtsSourceConfig;
 
-use super::{ClockId, SourceRemovedEvent, SpawnAction, SpawnEvent, Spawner, SpawnerId};
+use super::{
+    ClockId, SourceRemovalReason, SourceRemovedEvent, SpawnAction, SpawnEvent, Spawner, SpawnerId,
+};
 
 pub struct NtsSpawner {
     config: NtsSourceConfig,
@@ -173,9 +175,11 @@ impl Spawner for NtsSpawner {
 
     async fn handle_source_removed(
         &mut self,
-        _removed_source: SourceRemovedEvent,
+        removed_source: SourceRemovedEvent,
     ) -> Result<(), NtsSpawnError> {
-        self.has_spawned = false;
+        if removed_source.reason != SourceRemovalReason::Demobilized {
+            self.has_spawned = false;
+        }
         Ok(())
     }
 
